@@ -256,7 +256,12 @@ class Dm1:
         else:
             priority = 6
         # send pgn
-        self._ca.send_pgn(0, (self._pgn >> 8) & 0xFF, self._pgn & 0xFF, priority, data )
+        try:
+            self._ca.send_pgn(0, (self._pgn >> 8) & 0xFF, self._pgn & 0xFF, priority, data )
+        except RuntimeError:
+            # the CA lost its address while the message was being prepared: nothing is sent in this cycle
+            # (the exception must not end the job thread)
+            pass
 
         # returning true keeps the timer event active
         return True
